@@ -67,9 +67,15 @@ def _run_one(job):
         u.seconds = time.time() - t0
         u.stats = dict(smt.STATS)
         return u
-    except Exception:
+    except Exception as e:
         u = UnitResult(getattr(fn, "__name__", "unit") + repr(args)[:60])
-        u.error = traceback.format_exc()
+        from pyvc.interp import Unsupported
+
+        if isinstance(e, Unsupported):
+            # a rule or model of the engine does not apply to the code as it is now: undecided, not a checker failure
+            u.unsupported.append(f"{u.name}: {e}")
+        else:
+            u.error = traceback.format_exc()
         u.seconds = time.time() - t0
         return u
 
